@@ -116,6 +116,21 @@ def build_frame(ctx, op, symbolic):
         if end:
             f.flags.add('END_STREAM')
         return f
+    if t == 'HEADERSP':         # HEADERS with padding and priority fields
+        _t, sid, kind, end = op
+        f = hf.HeadersFrame(sid)
+        with h2h.native():
+            f.data = ctx.peer_enc.encode(KIND_HEADERS[kind])
+        f.flags.add('END_HEADERS')
+        f.flags.add('PADDED')
+        f.flags.add('PRIORITY')
+        f.pad_length = _sv('pad', 0, 255, 3) if symbolic else 3
+        f.depends_on = _sv('dep', 0, core.INT31, 0) if symbolic else 0
+        f.stream_weight = _sv('w', 0, 255, 15) if symbolic else 15
+        f.exclusive = False
+        if end:
+            f.flags.add('END_STREAM')
+        return f
     if t == 'DATAP':            # padded DATA
         _t, sid, end = op
         f = hf.DataFrame(sid)
@@ -258,7 +273,8 @@ def run_op(ctx, op, symbolic=False, observe=True):
             ctx.obs.on_sent(f)
         if is_frame:
             if out.cls == ('accept',):
-                ctx.obs.on_accepted(out.sent_frame, kind=op[2] if op[0] == 'HEADERS' else None)
+                ctx.obs.on_accepted(out.sent_frame,
+                                    kind=op[2] if op[0] in ('HEADERS', 'HEADERSP') else None)
             elif out.cls[0] == 'conn_error':
                 ctx.obs.on_conn_error()
     ctx.history.append(op)
